@@ -1,12 +1,22 @@
 /-
 C07 — a write batch is all-or-nothing under rejection, storage faults and crashes.
-Only the property theorems and their non-vacuity examples.  Model: SemaModel/C07/Model.lean.
+Only property theorems and their non-vacuity examples.  Model: SemaModel/C07/Model.lean.
 
-What is proved: logical atomicity of the shard entry points for EVERY program of storage calls,
-validations, index steps and cache writes, EVERY fault position and every kind of failure.
-What is assumed, not proved: bbolt's atomic commit (`Disk.write`, DESIGN 3.4) — a process death is
-the error branch (before commit) or the ok branch (after commit) of `Disk.write` by definition of
-`crashBatch`; crash points are exercised by the fault-injection harness only.
+READ THIS FIRST (independent audit, notes/AUDIT.md).  `runBatch` wraps `Disk.write` (Base/KV.lean), whose
+error branch returns the disk it was given: every clause below that says "the disk is identical to the
+pre-state" (`C07_atomic`, `C07_error_observe`, `C07_entry_points_atomic`, `C07_commit_fault_atomic`,
+`C07_crash_is_write_branch_assumed`) is THE ASSUMPTION on bbolt restated — it closes by `rfl` and holds for any
+body.  What this file proves is the bookkeeping AROUND that assumption, for every program of steps and every
+fault position: which shared caches are dropped / kept (`writtenCaches`), which runs report an error (a
+fault inside the program or AT ITS COMMIT, a failing validation) and which succeed, and the pinned shape of
+the entry points of shard/shard.go (T2).  `observe` here is (disk, caches) and does change when a warm cache
+is dropped; it is NOT what a client sees.
+
+That no QUERY can tell a failed batch from one never issued — the property's actual claim — is proved in
+SemaModel/C07/ObserveProps.lean (`C07_observe_atomic`, `C07_observe_history`, `C07_partial_cache_witness`) over
+the composed shard model with the shared-cache layer; there the storage assumption is the one definition
+`writeTx` and everything else is derived.
+
 What the model cannot express: goroutines of a failed batch that outlive the write closure
 (the known defect of the pinned tree, see notes/C07.md); found by the harness.
 -/
@@ -15,7 +25,8 @@ import SemaModel.Generated.FactsC07
 namespace Sema.C07
 open Sema
 
-/-- **Atomicity.**  For every running instance `s`, every program and every fault position:
+/-- **Bookkeeping of one batch** (the disk clauses are the assumption `Disk.write` restated, see the header;
+the content is in the cache clauses).  For every running instance `s`, every program and every fault position:
 * the batch reports an error ⇒ the committed disk is IDENTICAL to the pre-state, every shared cache
   the batch had write-locked is gone from the manager, every other cache is exactly as before;
 * the batch reports success ⇒ the disk is the pre-state with every storage call of the program
@@ -94,7 +105,9 @@ theorem C07_commit_by_closure_flag_not_atomic (s : Shard) (prog : Prog) (h : all
   C07_commit_by_closure_flag_not_atomic_aux s prog h n hn
 
 /-- the three entry points with the real point-store programs: an error leaves the disk identical
-(duplicate ids are refused before any transaction starts and leave the instance untouched) -/
+(duplicate ids are refused before any transaction starts and leave the instance untouched).  ASSUMPTION
+RESTATED: true of `Disk.write` for any body; listed because it is the only theorem that mentions the
+programs the driver replays call by call. -/
 theorem C07_entry_points_atomic (s : Shard) (maxSize : Nat) (ins : List InsItem) (upd : List UpdItem)
     (del : List Bytes) (extra : Prog) (fault : Option Nat) :
     (∀ e, (insertPoints s ins extra fault).2 = some e → (insertPoints s ins extra fault).1.disk = s.disk) ∧
